@@ -410,7 +410,7 @@ func c20RunStash(c *lib.Ctx) (int, int) {
 	_ = os.MkdirAll(filepath.Join(dir, "snap"), 0o755)
 	defer os.RemoveAll(dir)
 	cases := c20StashSweep()
-	for i := c.Scale(150, 1500); i > 0; i-- {
+	for i := c.Scale(150, 900); i > 0; i-- {
 		cases = append(cases, c20StashComposite(c, c.Rng))
 	}
 	// the generator's forms must satisfy the model's guard
@@ -601,9 +601,11 @@ func c20Slip(bin, dir, home string, lines []string) (string, bool) {
 	go func() { done <- cmd.Wait() }()
 	select {
 	case <-done:
-	case <-time.After(20 * time.Second):
+	case <-time.After(90 * time.Second):
+		// not a verdict about slip: the machine is overloaded or the process hangs
 		_ = cmd.Process.Kill()
-		return out.String(), false
+		fmt.Fprintf(os.Stderr, "c20: the slip process did not finish within 90 s (input %q); output so far: %s\n", lines, lastLines(out.String(), 6))
+		os.Exit(2)
 	}
 	return out.String(), true
 }
@@ -721,7 +723,7 @@ func c20RunCfg(c *lib.Ctx) (int, int) {
 		cases = append(cases, c20CfgCase{Cell: c20CellName("setq-with/" + pv.Var + "=" + pv.Lit), Sessions: [][]c20Setting{append(append([]c20Setting{}, trio...), pv), {{"*repl-debug*", "t"}}}})
 	}
 	r := c.Rng
-	for i := c.Scale(14, 120); i > 0; i-- {
+	for i := c.Scale(14, 70); i > 0; i-- {
 		cs := c20CfgCase{}
 		for s := 1 + r.Intn(3); s > 0; s-- {
 			var ses []c20Setting
